@@ -87,6 +87,10 @@ def rules(chk, db):
         rwrules.check_buffer_class(chk, db, rec, ids, guard_required=rec != 'nop::BufferWriter')
     c16.rules(chk, db, prefix='BW.', only={'nop::BoundedWriter'})
     tablerules.entry_size(chk, db, 'TE')
+    # the constexpr writer's capacity check admits length * sizeof(T) bytes: each element must then go through the lane of sizeof(T)
+    from . import c17
+    chk.rule('L', 'ConstexprBufferWriter stores each element of a bulk Write through the byte lane of exactly sizeof(element) bytes', minimum=8)
+    c17.lanes(chk, db, 'L')
 
 
 def run(chk, db):
